@@ -352,6 +352,11 @@ impl Cartesian<'_> {
             return Err("Stopped".into());
         }
 
+        // Linear transitions were only checked for continuity, check them for collisions now.
+        if trace.par_iter().any(|step| self.robot.collides(&step.joints)) {
+            return Err("Collision detected".into());
+        }
+
         Ok(trace)
     }
 
